@@ -21,8 +21,18 @@ SORT = "std::slice::<impl [T]>::sort"
 ERR = "sort::TopologicalSortError"
 
 
+def _norm(path):
+    """An ordered map / set used for look-ups is as good as the hash map / set it replaces: the
+    sorter's rules are about which keys are looked up, inserted and removed."""
+    return erase_generics(path).replace("BTreeMap", "HashMap").replace("BTreeSet", "HashSet")
+
+
 def is_call(o, path=None):
-    return o[0][0] == "call" and (path is None or o[0][3] == path or erase_generics(o[0][3]) == erase_generics(path))
+    return o[0][0] == "call" and (path is None or o[0][3] == path or _norm(o[0][3]) == _norm(path))
+
+
+def calls(f, path):
+    return [c for c in f.calls if c.path == path or _norm(c.path) == _norm(path)]
 
 
 def ty_of(f, op):
@@ -62,8 +72,8 @@ def c12_r1(ctx):
                 ao = f.origins_of_operand(c2.args[0])
                 if ao and all(o[0][0] == "param" and not any(st[0] in ("field", "next") for st in o[1:]) for o in ao):
                     ctx.viol((f.id, "rules-discarded-before-check", c2.name), "`%s` can drop rules from the input before the duplicate-target check: a path that is the target of two rules would be accepted" % c2.name, c2.where)
-        ins = f.calls_to(HM_INSERT)
-        gets = f.calls_to(HM_GET) + f.calls_to(HM_CONTAINS)
+        ins = calls(f, HM_INSERT)
+        gets = calls(f, HM_GET) + calls(f, HM_CONTAINS)
         ctx.need(ins and gets, "HashMap get/insert in %s" % f.id)
         for i in ins:
             ctx.inst("target map insert", i.where)
@@ -114,7 +124,7 @@ def c12_r2(ctx):
     for f, (bb, idx, rv, pl) in sites:
         ctx.saw(f)
         ctx.inst("TargetMissing", f.where(bb, idx))
-        gets = [g for g in f.calls_to(HM_GET) if all(o[0][0] == "param" for o in f.origins_of_operand(g.args[1]))]
+        gets = [g for g in calls(f, HM_GET) if all(o[0][0] == "param" for o in f.origins_of_operand(g.args[1]))]
         if not gets:
             ctx.viol((f.id, "goal-not-looked-up"), "the goal is not looked up in the target map", f.where(bb, idx))
             continue
@@ -196,7 +206,7 @@ def c12_r3(ctx):
     # one numbering: the index a rule's targets are filed under in the target map is the index
     # its frame carries (its position in the frame buffer)
     fi = f.origins_of_operand(fc.args[1])
-    for ins in f.calls_to(HM_INSERT):
+    for ins in calls(f, HM_INSERT):
         if ins.bb not in lp["body"]:
             continue
         for o in f.origins_of_operand(ins.args[2]):
@@ -301,7 +311,7 @@ def _cycle_set(ctx, f):
     """The set whose `contains` guards the construction of CircularDependence."""
     sites = f.constructs(ERR, "CircularDependence")
     ctx.need(sites, "CircularDependence construction")
-    cont = f.calls_to(HS_CONTAINS)
+    cont = calls(f, HS_CONTAINS)
     for (bb, idx, rv, pl) in sites:
         for c in cont:
             if f.dominated_by_edges(bb, f.bool_edges_of_call(c, True)):
@@ -329,7 +339,7 @@ def c12_r6(ctx):
         if not (ko and all(is_call(o, HM_GET) and o[1:] == (("variant", "Some"), ("field", 0), ("field", 0)) for o in ko)):
             ctx.viol((f.id, "cycle-test-key"), "the cycle test does not ask about the rule that owns the source (its key is not exactly the rule index of the map entry: a key that also carries the position among the rule's targets lets a cycle through another target of the same rule pass)", c.where)
         # what is put into / taken out of the set is the rule index of a frame, nothing more
-        for i2 in [x for x in f.calls_to(HS_INSERT) + f.calls_to(HS_REMOVE) if f.vars_of_operand(x.args[0]) == S]:
+        for i2 in [x for x in calls(f, HS_INSERT) + calls(f, HS_REMOVE) if f.vars_of_operand(x.args[0]) == S]:
             io = f.origins_of_operand(i2.args[1])
             if not (io and all(o[-1] == ("field", "index") for o in io)):
                 ctx.viol((f.id, "cycle-set-key", i2.name), "the on-stack set is keyed by something other than a frame's rule index (%s)" % sorted(map(fmt_origin, io))[:2], i2.where)
@@ -377,8 +387,8 @@ def c12_r5(ctx):
     f = fs[0]
     c, S, site = _cycle_set(ctx, f)
     ctx.need(c is not None, "cycle set")
-    ins = [i for i in f.calls_to(HS_INSERT) if f.vars_of_operand(i.args[0]) == S]
-    rem = [r for r in f.calls_to(HS_REMOVE) if f.vars_of_operand(r.args[0]) == S]
+    ins = [i for i in calls(f, HS_INSERT) if f.vars_of_operand(i.args[0]) == S]
+    rem = [r for r in calls(f, HS_REMOVE) if f.vars_of_operand(r.args[0]) == S]
     ctx.inst("contains", c.where)
     for r in rem:
         ctx.inst("remove", r.where)
@@ -398,9 +408,19 @@ def c12_r5(ctx):
     visit_fns = set()
     for g in sort_fns(ctx.P):
         for (bb, idx, rv, pl) in g.constructs("sort::Frame"):
-            names = rv["kind"]["fields"]
-            v = rv["ops"][names.index("visited")]
-            if v["k"] == "const" and v.get("bits") == "1" and pl["local"] == 0:
+            # (a frame rebuilt from the frame given, every field carried over but one that gets a
+            #  fixed value: `visited: true`, or a stage enum's second variant)
+            if pl["local"] != 0 or g.nargs != 1:
+                continue
+            carried = 0
+            fixed = 0
+            for op in rv["ops"]:
+                org = g.origins_of_operand(op)
+                if org and all(o[0] == ("param", 1) and len(o) == 2 and o[1][0] == "field" for o in org):
+                    carried += 1
+                elif op["k"] == "const" or (org and all(o[0][0] in ("agg", "const") and len(o) == 1 for o in org)):
+                    fixed += 1
+            if fixed == 1 and carried == len(rv["ops"]) - 1:
                 visit_fns.add(g.id)
     ctx.need(visit_fns, "the function that marks a frame visited")
     pushes = [p for p in f.calls_to(VEC_PUSH) if f.vars_of_operand(p.args[0]) == stack]
